@@ -154,9 +154,12 @@ func (c02) Generate(r *core.Rand, tier string, idx uint64) *core.Case {
 			Principals: []world.PrincipalSpec{world.KeyPrincipal(3)},
 			Rules:      []world.RuleSpec{{Name: "main-delegates", Patterns: []string{"git:" + mainRef}, Principals: []string{world.GetKey(3).ID}, Threshold: 1}}}
 	}
-	if r.Chance(0.3) {
+	if r.Chance(0.45) {
 		pol.RootKeys = []int{0, 4}
 		pol.RootThreshold = r.Range(1, 2)
+		if r.Chance(0.5) {
+			pol.RootThreshold = 2
+		}
 		pol.RootSigners = []int{0, 4}
 	}
 	b.add(world.Op{Kind: "stage", Actor: 0, Policy: pol})
@@ -242,8 +245,12 @@ func (c02) Generate(r *core.Rand, tier string, idx uint64) *core.Case {
 			c.Flags["hasHonestSuccessor"] = true
 			history = append(history, cur)
 		} else {
-			kind := r.Intn(10)
+			kind := r.Intn(11)
 			switch kind {
+			case 10: // same root principals, threshold lowered to 1, signed by a single root key
+				cur.RootThreshold = 1
+				cur.RootVersion++
+				cur.RootSigners = cur.RootKeys[:1]
 			case 0: // old root envelope, rule file forged: adversary authorises itself, signs with its own key
 				t := cur.Files["targets"]
 				t.Version++
